@@ -995,29 +995,35 @@ def signature(case, failure):
     return case["op"] + ":" + hashlib.sha1(json.dumps(case, sort_keys=True).encode()).hexdigest()[:16]
 
 
+def _sublists(xs):
+    """smaller candidate lists: halves first, single removals only for short lists"""
+    if len(xs) > 1:
+        yield xs[:len(xs) // 2]
+        yield xs[len(xs) // 2:]
+        if len(xs) > 4:
+            q = len(xs) // 4
+            yield xs[q:]
+            yield xs[:len(xs) - q]
+        if len(xs) <= 10:
+            for i in range(len(xs)):
+                yield xs[:i] + xs[i + 1:]
+
+
 def shrink(case):
     op = case["op"]
     if op == "bin1d":
-        vs = case["vals"]
-        if len(vs) > 1:
-            yield dict(case, vals=vs[:len(vs) // 2])
-            yield dict(case, vals=vs[len(vs) // 2:])
-            for i in range(len(vs)):
-                yield dict(case, vals=vs[:i] + vs[i + 1:])
+        for vs in _sublists(case["vals"]):
+            yield dict(case, vals=vs)
         return
     fs = case["fills"]
-    if len(fs) > 1:
-        yield dict(case, fills=fs[:len(fs) // 2])
-        yield dict(case, fills=fs[len(fs) // 2:])
-        for i in range(len(fs)):
-            yield dict(case, fills=fs[:i] + fs[i + 1:])
-    if case.get("bins") is not None:
-        axes = _valid_axes(case["edges"])
-        if axes is not None:
-            yield dict(case, bins=None, init=0)
-    for i, f in enumerate(fs):
-        if op == "hist" and f.get("w") != 1:
-            yield dict(case, fills=fs[:i] + [dict(f, w=1)] + fs[i + 1:])
+    for sub in _sublists(fs):
+        yield dict(case, fills=sub)
+    if case.get("bins") is not None and _valid_axes(case["edges"]) is not None:
+        yield dict(case, bins=None, init=0)
+    if op == "hist" and len(fs) <= 3:
+        for i, f in enumerate(fs):
+            if f.get("w") != 1:
+                yield dict(case, fills=fs[:i] + [dict(f, w=1)] + fs[i + 1:])
 
 
 # ---- MANIFEST texts ------------------------------------------------------------------------
